@@ -973,6 +973,9 @@ func TestVfWire(t *testing.T) {
 		// wire cases are regenerated from the seed; a replay file names the seed/index in its tag
 		cases = nil
 	}
+	if p := vfPropEnv(); p == "" || p == "C15" {
+		vsCheckSendSites(st)
+	}
 	r := &vfRng{s: vfSeed()*49979687 + 50}
 	n := vfEnvInt("VF_N", 120)
 	for i := 0; i < n; i++ {
